@@ -67,6 +67,13 @@ def _classify(stderr_text, rc):
         msg = re.sub(r"0x[0-9a-f]+", "ADDR", msg)
         msg = re.sub(r"-?\d+", "N", msg)
         kind = "ubsan:" + msg[:60].strip().replace(" ", "-")
+    elif re.search(r"==\d+== (Invalid (read|write|free)|Conditional jump|Use "
+                   r"of uninitialised|Mismatched free|Source and destination "
+                   r"overlap|Jump to the invalid)", stderr_text):
+        m = re.search(r"==\d+== (Invalid (?:read|write|free)|Conditional jump"
+                      r"|Use of uninitialised|Mismatched free|Source and "
+                      r"destination overlap|Jump to the invalid)", stderr_text)
+        kind = "memcheck:" + m.group(1).replace(" ", "-")
     elif "Assertion" in stderr_text and "failed" in stderr_text and \
             "/include/c++/" in stderr_text:
         kind = "glibcxx-assertion"
